@@ -35,3 +35,7 @@ func (s *Server) VerifSuitableRefType(ref1, ref2 *ua.NodeID, subtypes bool) bool
 
 // VerifGetSubRefs calls getSubRefs.
 func (s *Server) VerifGetSubRefs(nid *ua.NodeID) []*ua.NodeID { return getSubRefs(s, nid) }
+
+// VerifAppendRef appends a reference description to the node's reference list
+// (what AddRef does, for reference types outside namespace 0).
+func (n *Node) VerifAppendRef(r *ua.ReferenceDescription) { n.refs = append(n.refs, r) }
